@@ -554,3 +554,17 @@ theorem c16_binrw_RacialScalingParameters (b : Bytes) :
   BinrwTie.Aux.readRow_eq_generated b
 
 end Physis.C16
+
+/-! ### T4 (continued): `TerrainHeader` / `PlatePosition` (`src/tera.rs`) -/
+namespace Physis.C16
+open Physis.Binrw Physis.Generated
+
+/-- `Terrain::from_existing` = the regenerated `TerrainHeader` layout (five 32-bit fields, `pad_before = 32`,
+`count = plate_count` positions of two i16; little-endian by the structs' own attributes — the
+ambient `.big` is deliberately the wrong one) followed by the plate computation -/
+theorem c16_binrw_TerrainHeader (buffer : Bytes) :
+    Tera.fromExisting buffer =
+      (via BinrwTie.Aux.terrainOf (Layout.read .big BinrwAux.terrainHeader buffer)).map (·.1) :=
+  BinrwTie.Aux.fromExisting_eq_generated buffer
+
+end Physis.C16
